@@ -15,7 +15,6 @@ package dastard
 //@ ufunc IOFaults() bool
 //@ ufunc hasprefix(s string, p string) bool
 //@ ufunc toupper(s string) string
-//@ ufunc strbyte(s string, i int) int
 
 //@ ghost field os.File.nw mathint
 //@ ghost field os.File.w strmap
@@ -50,7 +49,7 @@ package dastard
 //@   ensures !IOFaults() ==> result1 == nil
 //@   ensures result1 == nil ==> b.n == old(b.n) + len(s) && b.items == old(b.items) + 1
 //@        && (forall i int :: {b.acc[i]} i < old(b.n) ==> b.acc[i] == old(b.acc[i]))
-//@        && (forall i int :: {b.acc[i]} old(b.n) <= i && i < b.n ==> b.acc[i] == strbyte(s, i - old(b.n)))
+//@        && (forall i int :: {b.acc[i]} old(b.n) <= i && i < b.n ==> b.acc[i] == strat(s, i - old(b.n)))
 //@   ensures result1 != nil ==> b.n == old(b.n) && b.items == old(b.items) && (forall i int :: {b.acc[i]} i < old(b.n) ==> b.acc[i] == old(b.acc[i]))
 //@   modifies b.n, b.acc, b.items
 //@ extern func (*bufio.Writer).Write
@@ -287,12 +286,6 @@ package dastard
 // ---------------------------------------------------------------------------------------------
 // Run-log side files (C20)
 // ---------------------------------------------------------------------------------------------
-//@ ufunc lebyte(x int, j int) int
-
-//@ extern func github.com/usnistgov/dastard/getbytes.FromSliceInt64
-//@   ensures len(result) == 8 * len(d) && (len(d) > 0 ==> result != nil)
-//@   ensures forall p int :: {at(result, p)} result.off <= p && p < result.off + len(result) ==> at(result, p) == lebyte(at(d, d.off + (p - result.off) / 8), (p - result.off) % 8)
-
 // While a file name is set (writing active), the counts of this block are appended exactly once,
 // in order, as little-endian int64 after whatever the file already holds; otherwise nothing is written.
 //@ func (*AnySource).HandleExternalTriggers
